@@ -6,5 +6,6 @@ CONSTANTS
   BATCH = 32
   CHUNK = 48000
   MaxBlockSize = 7788
+  TimeoutPerChunk = TRUE
   Streams <- StreamsFull
 INVARIANTS Emit
